@@ -280,6 +280,14 @@ theorem release_resets_everything {β ν δ : Type} (lib : Lib β ν δ) (st : P
   · intro h; simp [release, h]
   · intro d' h hlen; simp [release, h, hlen]
 
+/-- **Fact from the tree:** after a handled pack that put 1, 30, 61 … 66, 70
+and 130 names into the dictionary — on both sides of
+`maxPooledCompressionEntries` — the compiled `release` left the pooled state
+clean (nothing of the dictionary visible to the next pack). -/
+theorem release_clean_on_tree : SdnsVerif.Gen.C15.release_clean_after_names.all id = true ∧
+    SdnsVerif.Gen.C15.release_clean_after_names.length = 10 := by
+  decide
+
 /-- a clean state stays clean across any `TryPack`, handled or declined. -/
 theorem tryPack_preserves_clean {β ν δ : Type} (lib : Lib β ν δ) (m : Msg ν) (heap : Heap β)
     (st : PState β δ) (hst : Clean lib st) : Clean lib (tryPack lib m heap st).st := by
@@ -558,6 +566,34 @@ theorem udp_stages_what_it_is_given (j : UdpJob) (b : Bytes) (ulen : Nat) (hfit 
       simp [this]
     · simp only [hp, if_false]; unfold udpWrite; simp [h1]
 
+/-- **The wire fast path's lease leaves no trace.**  `LeaseWire` changes no
+state of the job: a body built in the lease and committed is staged as it is
+(by length — the bytes are home), and a lease that was aborted — after any
+amount of junk was written into the slab — changes nothing about the reply
+that follows through `Write`/`WriteMsg`: it is staged in full all the same. -/
+theorem udp_lease_leaves_no_trace (j : UdpJob) (body junk b : Bytes) (ulen : Nat)
+    (hbody : body.length ≤ j.tx.length) (hb : b.length ≤ j.tx.length) :
+    (udpCommit j body).1.staged = body ∧ (udpCommit j body).2 = true ∧
+    (udpWrite (udpAbort j junk) b false).1.staged = b ∧
+    (udpWriteMsg (udpAbort j junk) (.ok b) ulen).1.staged = b := by
+  have hlen : (udpAbort j junk).tx.length = j.tx.length := by simp [udpAbort, writeAt_length]
+  have h1 := udp_stages_what_it_is_given (udpAbort j junk) b ulen (by rw [hlen]; exact hb)
+  refine ⟨?_, ?_, h1.1, h1.2.2.1⟩
+  · unfold udpCommit
+    have : ¬ body.length > j.tx.length := by omega
+    simp only [this, if_false]
+    unfold udpWrite UdpJob.staged
+    have h2 : ¬ body.length > (writeAt j.tx 0 body).length := by rw [writeAt_length]; omega
+    simp only [h2, if_false]
+    have := writeAt_take j.tx 0 body (by omega)
+    simpa using this
+  · unfold udpCommit
+    have : ¬ body.length > j.tx.length := by omega
+    simp only [this, if_false]
+    unfold udpWrite
+    have h2 : ¬ body.length > (writeAt j.tx 0 body).length := by rw [writeAt_length]; omega
+    simp [h2]
+
 /-- **A UDP reply is the library's encoding whichever route it took**: pooled
 packer → `Write`, or declined → `WriteMsg` (in place or allocated); if the
 library encodes the reply in `b` and `b` fits the slab, the staged datagram is
@@ -780,6 +816,9 @@ example : (writeMsg toyLib toyMsg toyHeap toySt true true).events = [.writeMsg] 
 example : (udpWrite { tx := List.replicate 32 0xEE } [1, 2, 3] false).1.staged = [1, 2, 3] := by decide
 example : (udpWriteMsg { tx := List.replicate 32 0xEE } (.ok [1, 2, 3]) 40).1.staged = [1, 2, 3] ∧
     (udpWriteMsg { tx := List.replicate 32 0xEE } (.ok [1, 2, 3]) 10).1.staged = [1, 2, 3] := by decide
+-- a lease aborted after 5 junk bytes, then a 3-byte reply from the pooled packer: staged in full, no junk
+example : (udpWrite (udpAbort { tx := List.replicate 32 0xEE } [9, 9, 9, 9, 9]) [1, 2, 3] false).1.staged = [1, 2, 3] := by decide
+example : (udpCommit { tx := List.replicate 32 0xEE } [4, 5, 6]).1.staged = [4, 5, 6] := by decide
 -- what the seeded shortcut did (stage by length although the bytes are elsewhere) shows the previous reply
 example : ({ tx := List.replicate 32 0xEE, txLen := 3 } : UdpJob).staged = [0xEE, 0xEE, 0xEE] := by decide
 
